@@ -219,3 +219,7 @@ func EnumPad(name string, alts ...string) string {
 // Pin returns x; symbolically it forks over the feasible values of x so that each path continues with a concrete
 // value (use only when few values are feasible).
 func Pin(x int) int { return x }
+
+// PinStr returns s; symbolically it forks over the alternatives of a finite-domain string so that each path continues
+// with a concrete value.
+func PinStr(s string) string { return s }
